@@ -812,6 +812,7 @@ func (x *c12) r3() {
 				errObj = c11ObjOf(rinfo, as.Lhs[0])
 			}
 			wrapped := false
+			directReturn := map[*ast.ReturnStmt]bool{}
 			ast.Inspect(g.Decl.Body, func(nd ast.Node) bool {
 				is, ok := nd.(*ast.IfStmt)
 				if !ok {
@@ -830,11 +831,18 @@ func (x *c12) r3() {
 				}
 				inner := c11ObjOf(rinfo, as.Lhs[0])
 				for _, s := range is.Body.List {
-					as2, ok := s.(*ast.AssignStmt)
-					if !ok || len(as2.Lhs) != 1 || c11ObjOf(rinfo, as2.Lhs[0]) != errObj {
+					// err = &PanicError{p}   or   return &PanicError{p}
+					var wrapExpr ast.Expr
+					if as2, ok := s.(*ast.AssignStmt); ok && len(as2.Lhs) == 1 && len(as2.Rhs) == 1 && c11ObjOf(rinfo, as2.Lhs[0]) == errObj {
+						wrapExpr = as2.Rhs[0]
+					} else if rs, ok := s.(*ast.ReturnStmt); ok && len(rs.Results) == 1 {
+						wrapExpr = rs.Results[0]
+						directReturn[rs] = true
+					}
+					if wrapExpr == nil {
 						continue
 					}
-					if u, ok := ast.Unparen(as2.Rhs[0]).(*ast.UnaryExpr); ok && u.Op == token.AND {
+					if u, ok := ast.Unparen(wrapExpr).(*ast.UnaryExpr); ok && u.Op == token.AND {
 						if cl, ok := u.X.(*ast.CompositeLit); ok && len(cl.Elts) == 1 {
 							v := cl.Elts[0]
 							if kv, ok := v.(*ast.KeyValueExpr); ok {
@@ -861,6 +869,9 @@ func (x *c12) r3() {
 					if len(rs.Results) == 1 {
 						if tv, ok := rinfo.Types[rs.Results[0]]; ok && tv.IsNil() {
 							return true
+						}
+						if directReturn[rs] {
+							return true // the wrap itself is returned
 						}
 						if c11ObjOf(rinfo, rs.Results[0]) != errObj {
 							retOK = false
